@@ -26,7 +26,8 @@ inductive RTok where | e | z | d (n : Nat)
 def parseR (w : String) : RTok :=
   if w = "e" then .e else if w = "z" then .z else .d (Drv.nat! (w.drop 1).toString)
 
-def parseW (w : String) : KWrite := if w = "e" then .eagain else .n (Drv.nat! w)
+-- `m`: EAGAIN whose wake-up arrives merged with a read event - for the writer the same as `e`
+def parseW (w : String) : KWrite := if w = "e" || w = "m" then .eagain else .n (Drv.nat! w)
 
 /-- onReadReady with lazily generated data: mirrors EventConn.onReadReady but draws bytes from the stream position -/
 def ready (cfg : RCfg) : Nat → RState → Nat → List RTok → List Nat → List (List Nat) → RState × Nat × List (List Nat) × Bool
@@ -54,6 +55,15 @@ def ready (cfg : RCfg) : Nat → RState → Nat → List RTok → List Nat → L
 def splitBar (ws : List String) : List String × List String :=
   (ws.takeWhile (· ≠ "|"), (ws.dropWhile (· ≠ "|")).drop 1)
 
+/-- a write-ready event that arrives merged with a read-ready event (`m` among the kernel answers the writer got to):
+    handleEvent also runs onReadReady, whose read finds nothing - it may still grow a full buffer and shows the window -/
+def mergedRead (d : St) (res : List String) (calls : Nat) : St :=
+  if (res.take calls).contains "m" then
+    let r0 := if d.r.buf.isEmpty then { d.r with buf := List.replicate 16 0 } else d.r
+    let (s', pos', _, _) := ready {} 3 r0 d.rpos [.e] [] []
+    { d with r := s', rpos := pos' }
+  else d
+
 def step (d : St) (line : String) : St × String :=
   match Drv.words line with
   | ["rinit", c] => ({ d with r := { buf := List.replicate (Drv.nat! c) 0 }, rpos := 0 }, "ok")
@@ -65,12 +75,12 @@ def step (d : St) (line : String) : St × String :=
   | "write" :: n :: res =>
     let data := genW d.wpos (Drv.nat! n)
     let (acc, calls, ok) := EventConn.write (res.length + 2) data (res.map parseW) [] 0
-    ({ d with wpos := d.wpos + Drv.nat! n }, s!"acc={showW acc} calls={calls} done={if ok then 1 else 0}")
+    (mergedRead { d with wpos := d.wpos + Drv.nat! n } res calls, s!"acc={showW acc} calls={calls} done={if ok then 1 else 0}")
   | "writev" :: sizes :: res =>
     let ns := Drv.natsOf sizes
     let (data, p) := ns.foldl (fun (acc : List (List Nat) × Nat) n => (acc.1 ++ [genW acc.2 n], acc.2 + n)) ([], d.wpos)
     let (acc, calls, ok) := EventConn.writev (data.length + 2) data (res.map parseW) [] 0
-    ({ d with wpos := p }, s!"acc={showW acc} calls={calls} done={if ok then 1 else 0}")
+    (mergedRead { d with wpos := p } res calls, s!"acc={showW acc} calls={calls} done={if ok then 1 else 0}")
   | _ => (d, "bad-op")
 
 end Drv.C18
